@@ -190,7 +190,7 @@ func runCase(c Case) (res simResult) {
 			}
 		}
 	}
-	hadPause, stopPaused, stopMid := false, false, false
+	hadPause, stopPaused, stopMid, hadRepause := false, false, false, false
 	handle := func(ct Ctl) (simResult, bool) {
 		// while one control action is being carried out, requests that would trigger another one are let through
 		// (otherwise they would sit in the gate for ever and look like in-flight work that never drains)
@@ -242,8 +242,37 @@ func runCase(c Case) (res simResult) {
 				return res, false
 			}
 			say("resume")
-			if !mustReturn(func() { pause.Resume() }) {
-				return fail("C14/pipeline", "Resume() did not return within a virtual hour"), true
+			if !ct.Repause {
+				if !mustReturn(func() { pause.Resume() }) {
+					return fail("C14/pipeline", "Resume() did not return within a virtual hour"), true
+				}
+			} else {
+				// a controller pauses again at once. With a single P the caller runs on from Resume() into Pause() before
+				// any of the workers it has just woken is scheduled: the new signal is already waiting when they come
+				// back to their loop, and must be honoured like any other
+				say("pause again right after the resume")
+				hadRepause = true
+				prev := runtime.GOMAXPROCS(1)
+				ok := mustReturn(func() { pause.Resume(); pause.Pause("verif-2") })
+				runtime.GOMAXPROCS(prev)
+				if !ok {
+					return fail("C14/pipeline", "Resume() immediately followed by Pause() did not return within a virtual hour"), true
+				}
+				drain()
+				nf, nfin := len(p.Net.Log()), len(p.Finishes())
+				time.Sleep(10 * time.Minute)
+				synctest.Wait()
+				if len(p.Net.Log()) != nf {
+					l := p.Net.Log()
+					return fail("C14/pipeline", "while the pipeline was paused again right after a resume (and in-flight work had drained) new work was taken: %s was requested", l[nf].URL), true
+				}
+				if len(p.Finishes()) != nfin {
+					return fail("C14/pipeline", "a seed was reported finished while the pipeline was paused again and drained"), true
+				}
+				say("resume")
+				if !mustReturn(func() { pause.Resume() }) {
+					return fail("C14/pipeline", "the Resume() of a pause issued right after the previous resume did not return within a virtual hour"), true
+				}
 			}
 		case "stop":
 			stopMid = true
@@ -586,6 +615,9 @@ func runCase(c Case) (res simResult) {
 	}
 	if hadPause {
 		res.Classes = append(res.Classes, "ctl:pause-resume")
+		if hadRepause {
+			res.Classes = append(res.Classes, "ctl:repause")
+		}
 	}
 	if c.Sequential {
 		res.Classes = append(res.Classes, "mode:sequential")
@@ -682,17 +714,17 @@ func genCase(t *rapid.T) (Case, map[string]bool) {
 	// control events
 	switch rapid.IntRange(0, 5).Draw(t, "ctl") {
 	case 0:
-		c.Ctl = []Ctl{{At: rapid.IntRange(1, 8).Draw(t, "at"), Kind: "pause-resume"}}
+		c.Ctl = []Ctl{{At: rapid.IntRange(1, 8).Draw(t, "at"), Kind: "pause-resume", Repause: rapid.IntRange(0, 2).Draw(t, "repause") == 0}}
 	case 1:
 		c.Ctl = []Ctl{{At: rapid.IntRange(1, 8).Draw(t, "at"), Kind: []string{"stop", "pause-stop"}[rapid.IntRange(0, 1).Draw(t, "stopkind")]}}
 	case 2:
 		a := rapid.IntRange(1, 6).Draw(t, "at")
-		c.Ctl = []Ctl{{At: a, Kind: "pause-resume"}, {At: a + rapid.IntRange(1, 6).Draw(t, "at2"), Kind: "pause-resume"}}
+		c.Ctl = []Ctl{{At: a, Kind: "pause-resume"}, {At: a + rapid.IntRange(1, 6).Draw(t, "at2"), Kind: "pause-resume", Repause: rapid.IntRange(0, 2).Draw(t, "repause") == 0}}
 	case 3:
 		pts := []string{"preprocessor.received", "preprocessor.forward", "archiver.received", "archiver.beforeDo", "archiver.forward", "postprocessor.received",
 			"postprocessor.outlinks", "postprocessor.outlinks", "postprocessor.forward", "finisher.received", "finisher.feedback", "finisher.beforeMarkFinished"}
 		c.Ctl = []Ctl{{At: rapid.IntRange(1, 6).Draw(t, "hookn"), Point: pts[rapid.IntRange(0, len(pts)-1).Draw(t, "point")],
-			Kind: []string{"hookpause-resume", "hookpause-stop", "hookpause-stop"}[rapid.IntRange(0, 2).Draw(t, "hookkind")]}}
+			Kind: []string{"hookpause-resume", "hookpause-stop", "hookpause-stop"}[rapid.IntRange(0, 2).Draw(t, "hookkind")], Repause: rapid.IntRange(0, 2).Draw(t, "repause") == 0}}
 	}
 	return c, feats
 }
